@@ -51,6 +51,38 @@ def handle (st : DState) (line : String) : DState × String :=
         | some c, some bs => (st, showExcept MetaEvent.show (metaFromBytes c bs))
         | _, _ => (st, "bad-op")
       | _ => (st, "bad-op")
+    | "merge" =>
+      -- "merge" alone = no tracks; tracks are separated by "|"
+      let groups := if args.isEmpty then [] else splitTracks args
+      match groups.mapM (fun g => g.mapM parseTEv) with
+      | some ts => (st, " ".intercalate ((mergeTracks ts).map TEv.show))
+      | none => (st, "bad-op")
+    | "fixeot" => match args.mapM parseTEv with
+      | some es => (st, " ".intercalate ((fixEOT es).map TEv.show))
+      | none => (st, "bad-op")
+    | "iter" => match args with
+      | ty :: evs => match parseNat? ty, evs.mapM parsePEv with
+        | some t, some es => (st, showExcept showList (iterFile t es))
+        | _, _ => (st, "bad-op")
+      | _ => (st, "bad-op")
+    | "length" => match args with
+      | ty :: evs => match parseNat? ty, evs.mapM parsePEv with
+        | some t, some es => (st, showExcept toString (lengthFile t es))
+        | _, _ => (st, "bad-op")
+      | _ => (st, "bad-op")
+    | "play" =>
+      -- play <start> <clock0> times... | delay:extra ...
+      match args with
+      | s0 :: c0 :: rest =>
+        let groups := splitTracks rest
+        match parseInt? s0, parseInt? c0, groups with
+        | some start, some clock, [ts, sched] =>
+          match ts.mapM parseNat?, sched.mapM parsePair with
+          | some tl, some sl =>
+            (st, " ".intercalate ((playAll start 0 clock tl sl).map (fun o => s!"{o.sleepReq}:{o.yieldedAt}")))
+          | _, _ => (st, "bad-op")
+        | _, _, _ => (st, "bad-op")
+      | _ => (st, "bad-op")
     | "preset" => ({ st with p := {} }, "ok")
     | "pfeed" => match parseInts args with
       | some bs => let (p, o) := pstep st.p (.feed bs); ({ st with p := p }, o.show)
